@@ -22,6 +22,9 @@ type Obs struct {
 	// RegOrder: program instances in the order in which they were handed to the container.
 	// RegOwner (after a rejected registration only): name -> the object the singleton registry
 	// holds under that name once the application has recovered the rejection.
+	// LeftoverViews (set by the identity oracle): views held by holders that were completed
+	// inside a creation attempt which then failed (not judged, counted as an observation).
+	LeftoverViews int `json:"-"`
 	// Presets: "holder.field" -> id of the object the application put into that optional,
 	// unsatisfiable point before Run.
 	Presets map[string]string `json:"presets,omitempty"`
